@@ -1,7 +1,6 @@
-\* P level + M level
+\* one walk over the recording; verdict.ndjson lists unconsumable lines (P) and frame drift (M)
 CONSTANTS
   defaultInitValue = defaultInitValue
 INIT TraceInit
 NEXT TraceNext
-INVARIANTS StackOK
 CHECK_DEADLOCK FALSE
